@@ -4613,7 +4613,9 @@ def pair15_charge_same_version(P, R, L, rule="PAIR-15"):
                         via_helper.append((c, c.args[k - 1]))
     if not us and not via_helper:
         return R.check(rule, GET + "|anchors", False, where(b), "DB::get applies the seek charge (update_stats)", "no update_stats call")
-    # the version handle handed to the lookup closure
+    # the version handle handed to the lookup closure (sites are (body, block): the load may sit in a private helper
+    # that captures the read state, deep_origins follows it there)
+    key = lambda o: (o.site.body.path, o.site.bb)
     handed = set()
     for (u, cb) in unlocked_closures(P, L, b):
         vg = [c for c in cb.calls() if not cb.is_cleanup(c.bb) and c.name == VERSION_GET]
@@ -4621,17 +4623,17 @@ def pair15_charge_same_version(P, R, L, rule="PAIR-15"):
             for o in origins(cb, c.args[0]):
                 if o.kind == "upvar":
                     for po in upvar_parent_origins(P, cb, o.name):
-                        if po.kind == "call" and po.site is not None:
-                            handed.add(po.site.bb)
+                        if po.kind == "call" and po.site is not None and po.name == CUR_VERSION:
+                            handed.add(key(po))
     ok = bool(handed)
     det = []
     for c, recv in [(c, c.args[0]) for c in us] + via_helper:
-        sites = {o.site.bb for o in origins(b, recv) if o.kind == "call" and o.site is not None and o.name == CUR_VERSION}
+        sites = {key(o) for o in deep_origins(P, b, recv) if o.kind == "call" and o.site is not None and o.name == CUR_VERSION}
         if not sites or not sites <= handed:
             ok = False
-            det.append("line %s: update_stats is applied to a version loaded at bb%s, the lookup used the one loaded at bb%s" % (c.line, sorted(sites), sorted(handed)))
+            det.append("line %s: update_stats is applied to a version loaded at %s, the lookup used the one loaded at %s" % (c.line, sorted(sites), sorted(handed)))
     R.check(rule, GET + "|charge-applied-to-the-version-that-was-read", ok, where(b),
-            "update_stats is called on the version handle the lookup ran against", "; ".join(det) or "version loaded at bb%s" % sorted(handed))
+            "update_stats is called on the version handle the lookup ran against", "; ".join(det) or "version loaded at %s" % sorted(handed))
 
 
 # ------------------------------------------------------------------------------------------- GRD-23 read sampling charges only keys held by >= 2 files
@@ -4980,3 +4982,41 @@ def agr2_codec_pairs(P, R, L, groups=("batch", "log", "manifest", "table"), rule
                     "%s: the reader decodes the integer codecs and widths the writer (%s) encodes" % (what, enc[0].rsplit("::", 2)[-2] if "::" in enc[0] else enc[0]),
                     "writer [%s] reader [%s]" % (fmt(e), fmt(d)))
     R.floor(rule, "writer/reader codec pairs compared (%s)" % "+".join(groups), n, sum(len(CODEC_PAIRS[g]) for g in groups))
+
+
+MERGE_SEEKS = ["<versioning::file_iterators::MergingIterator as iterator::RainDbIterator>::seek",
+               "<versioning::file_iterators::MergingIterator as iterator::RainDbIterator>::seek_to_first",
+               "<versioning::file_iterators::MergingIterator as iterator::RainDbIterator>::seek_to_last"]
+
+
+def err3_merge_seek_reports(P, R, L, rule="ERR-3"):
+    """A child iterator whose seek failed (table cannot be opened, block cannot be read) has dropped out of the merge: what
+    it shadows would be served as current. The three positioning methods of MergingIterator have an error channel, so they
+    return the child's error (besides parking it for get_error): some `Err(..)` assigned to the return place derives from
+    the result of a child seek. The stepping methods have no channel; that remainder is the D12 family."""
+    for fn in MERGE_SEEKS:
+        b = P.body(fn)
+        if b is None:
+            R.missing_anchor(rule, fn)
+            continue
+        R.analysed(b)
+        child = [c for c in b.calls() if not b.is_cleanup(c.bb) and (c.declared_name or "").startswith("iterator::RainDbIterator::seek")]
+        derived = 0
+        for bb in range(b.n):
+            if b.is_cleanup(bb):
+                continue
+            for st in b.blocks[bb]["stmts"]:
+                if st["k"] == "assign" and st["pl"]["l"] == 0 and not st["pl"]["p"]:
+                    rv = st["rv"]
+                    if rv["k"] == "aggregate" and rv.get("variant") == "Err":
+                        os_ = [o for op in rv.get("ops", []) for o in origins(b, op)]
+                        if any(o.kind == "call" and o.site is not None and any(o.site.bb == c.bb for c in child) for o in os_):
+                            derived += 1
+        # `iter.seek(..)?` writes _0 through from_residual
+        for c in b.calls():
+            if not b.is_cleanup(c.bb) and c.dest and c.dest["l"] == 0 and (c.declared_name or "").endswith("FromResidual::from_residual"):
+                if any(o.kind == "call" and o.site is not None and any(o.site.bb == x.bb for x in child) for o in origins(b, c.args[0])):
+                    derived += 1
+        R.check(rule, fn + "|child-seek-failure-is-returned", bool(child) and derived > 0, where(b),
+                "the positioning method returns Err(the error of a child seek) — a source that could not be positioned is reported, "
+                "not silently dropped from the merge", "child seek sites %d, Err returns derived from them %d" % (len(child), derived))
